@@ -123,6 +123,7 @@ func directC09(g *G, rep *Report) {
 			close(start)
 			wg.Wait()
 		}
+		structsConcurrently(rep, i, G)
 		reg, err := compileBundle(fs)
 		if err != nil {
 			continue
